@@ -32,7 +32,10 @@ ASSUMPTIONS = [
 FORMULA_SRC = {"F1": "center(a) + A", "F2": "a:A + scale(b)", "F3": "y ~ a | A", "F4": "bs(a, df=3) + C(A, contr.sum)",
                "F5": "0 + A:B + center(b)", "F6": "bs(a, knots=kn, degree=2) + center(b)",
                # several python factors over the same back-quoted names, two of which (`a b`, `a+b`) sanitize to one python alias
-               "F7": "center(`a b`) + scale(`a b`) + center(`a+b`)"}
+               "F7": "center(`a b`) + scale(`a b`) + center(`a+b`)",
+               # objects owned by the caller and handed over through the context: a contrasts instance (re-used for factors whose levels put its
+               # base at different positions) and a float array (transforms must not work on it in place)
+               "F8": "C(G, tr) + a", "F9": "lag(z4) + a"}
 
 
 def _plain_center(x):
@@ -46,7 +49,9 @@ def _plain_scale(x):
 # evaluation contexts: the default one, and one in which the names of two built-in *stateful* transforms are bound to plain functions
 def make_contexts():
     """fresh caller-owned context objects for every world (they are inputs: a build must not change them)"""
-    return {"ctx-default": {"kn": [2.0, 4.0]}, "ctx-shadow": {"center": _plain_center, "scale": _plain_scale, "kn": [2.0, 4.0]}}
+    from formulaic.transforms.contrasts import TreatmentContrasts
+    return {"ctx-default": {"kn": [2.0, 4.0], "tr": TreatmentContrasts(base="c"), "z4": np.array([1.0, 2.0, 4.0, 8.0])},
+            "ctx-shadow": {"center": _plain_center, "scale": _plain_scale, "kn": [2.0, 4.0], "tr": TreatmentContrasts(base="c"), "z4": np.array([1.0, 2.0, 4.0, 8.0])}}
 
 
 CONTEXTS = make_contexts()
@@ -60,11 +65,12 @@ def make_world():
                        "A": pd.Series(["y", "y", "z", None, "x"], dtype=object), "B": pd.Series(["v", "u", "u", "v", "w"], dtype=object)},
                       index=[3, 1, 4, 1, 5])
     d1[7] = [0.0, 1.0, 0.0, 1.0]  # a non-string column label that no formula uses
+    d1["G"], d2["G"] = pd.Series(["a", "b", "c", "a"], dtype=object), pd.Series(["b", "c", "d", "b", "c"], dtype=object, index=d2.index)
     d1["a b"], d1["a+b"] = [3.0, 1.0, 4.0, 1.5], [10.0, 20.0, 30.0, 25.0]
     d2["a b"], d2["a+b"] = [2.0, 7.0, 1.0, 8.0, 2.5], [1.0, 4.0, 9.0, 16.0, 25.0]
     w = {"D1": d1, "D2": d2}
     for k, src in FORMULA_SRC.items():
-        if k in ("F6", "F7"):
+        if k in ("F6", "F7", "F8", "F9"):
             continue  # F6 needs a context (knots list): only built through ("mmctx", ...); F7 is built from its string there too
         try:
             w[k] = Formula(src)
@@ -78,7 +84,7 @@ def make_world():
 
 def world_digests(w):
     out = {"D1": digest(w["D1"]), "D2": digest(w["D2"]),
-           "contexts": digest({k: {n: (v if not callable(v) else v.__name__) for n, v in c_.items()} for k, c_ in w["contexts"].items()})}
+           "contexts": digest({k: {n: (v if not callable(v) else getattr(v, "__name__", repr(v))) for n, v in c_.items()} for k, c_ in w["contexts"].items()})}
     for k in FORMULA_SRC:
         if k in w:
             out[k] = digest(_formula_terms(w[k])) if not isinstance(w[k], Exception) else repr(w[k])[:80]
@@ -519,7 +525,7 @@ def drv_seeds(c, ctx, col):
 # between calls cannot be seen against an in-process "fresh world", so every history is also run in its own interpreter and
 # each event's result is compared with the same event run alone in its own interpreter.
 
-PROC_EVENTS = [("parser", ""), ("parser", "TWOSIDED"), ("F7", "D1", "ctx-default"), ("F6", "D1", "ctx-default"), ("F1", "D1", "ctx-default"), ("F1", "D1", "ctx-shadow"), ("F1", "D2", "ctx-default"), ("F2", "D1", "ctx-default"),
+PROC_EVENTS = [("F8", "D1", "ctx-default"), ("F8", "D2", "ctx-default"), ("parser", ""), ("parser", "TWOSIDED"), ("F7", "D1", "ctx-default"), ("F6", "D1", "ctx-default"), ("F1", "D1", "ctx-default"), ("F1", "D1", "ctx-shadow"), ("F1", "D2", "ctx-default"), ("F2", "D1", "ctx-default"),
                ("F2", "D2", "ctx-shadow"), ("F5", "D2", "ctx-default"), ("F4", "D1", "ctx-default"), ("F3", "D1", "ctx-default")]
 
 PROBE_HIST = r"""
@@ -582,7 +588,7 @@ def subchecks(tier, seed):
             shard_depth=2, bounds={"max_events": 2 if quick else 3, "formulas": FORMULA_SRC, "frames": 2}),
         Sub("histories-depth3-slice", drv_hist, {"D": 3, "formulas": ["F1"] if quick else ["F1", "F2", "F3", "F4"], "entries": ["umm"] if quick else ["mm", "umm"]},
             shard_depth=2, bounds={"max_events": 3, "formulas": ["F1"] if quick else list(FORMULA_SRC), "entries": "shared unfitted specs (+model_matrix in thorough)"}),
-        Sub("histories-contexts", drv_hist, {"D": 2 if quick else 3, "formulas": [], "ctx_formulas": ["F1", "F2", "F6", "F3", "F7"], "entries": []},
+        Sub("histories-contexts", drv_hist, {"D": 2 if quick else 3, "formulas": [], "ctx_formulas": ["F1", "F2", "F6", "F3", "F7", "F8", "F9"], "entries": []},
             shard_depth=2, bounds={"max_events": 2 if quick else 3, "events": "builds of F1/F2 under the default context and under a context binding "
                                    "'center'/'scale' to plain functions, reuse of every produced spec, update, pickle, subset"}),
         Sub("hash-orders", drv_hashorder, {"formulas": HASH_FORMULAS[:4] if quick else HASH_FORMULAS}, shard_depth=3,
